@@ -623,6 +623,7 @@ pub trait IntT: Copy + PartialEq + std::fmt::Debug + 'static {
     fn back(x: TwoFloat) -> Option<Self>;
     fn back_ref(x: &TwoFloat) -> Option<Self>;
     fn back_tp(x: &TwoFloat) -> Option<Self>;
+    fn back_nc(x: TwoFloat) -> Option<Self>;
     fn from_u128_wrapping(x: u128) -> Self;
     fn min_v() -> Self;
     fn max_v() -> Self;
@@ -668,6 +669,9 @@ macro_rules! impl_int {
             }
             fn back_tp(x: &TwoFloat) -> Option<Self> {
                 ToPrimitive::$tp(x)
+            }
+            fn back_nc(x: TwoFloat) -> Option<Self> {
+                <$T as NumCast>::from(x)
             }
             fn from_u128_wrapping(x: u128) -> Self {
                 x as $T
@@ -769,9 +773,9 @@ pub fn c09_back<T: IntT>(c: &mut Ctx, x: W) {
     let want: Option<T> = if valid_ref(x.0, x.1) { T::from_dy(&dy(x).trunc()) } else if finite(x) { return } else { None };
     c.note(op, &ins, finite(x) && x.0 != 0.0);
     let tx = t(x);
-    match guard(|| (T::back(tx), T::back_ref(&tx), T::back_tp(&tx))) {
-        Ok((a, b, cc)) if a == want && b == want && cc == want => {}
-        Ok((a, b, cc)) => c.viol(op, "wrong", &ins, &[], format!("got {a:?}/{b:?}/{cc:?} (value/ref/ToPrimitive), expected {want:?} = trunc(hi+lo) range-checked")),
+    match guard(|| (T::back(tx), T::back_ref(&tx), T::back_tp(&tx), T::back_nc(tx))) {
+        Ok((a, b, cc, d)) if a == want && b == want && cc == want && d == want => {}
+        Ok((a, b, cc, d)) => c.viol(op, "wrong", &ins, &[], format!("got {a:?}/{b:?}/{cc:?}/{d:?} (value/ref/ToPrimitive/NumCast), expected {want:?} = trunc(hi+lo) range-checked")),
         Err(m) => c.viol(op, "panic", &ins, &[], m),
     }
     if want.is_some() {
